@@ -612,13 +612,19 @@ def execute(ctx, spec):
     wraps = set(pr["wrap"])
     check_lines(ctx, spec, lines, wraps)
     # ---- text round trip
-    buf = io.StringIO()
-    f.write(buf)
-    text = buf.getvalue()
+    g = None
+    if ctx.index % 4 == 1:
+        from vf.core import through_disk
+        g, text = through_disk(ctx, f, PDBFile, False, ".pdb", as_pathlib=ctx.index % 8 == 1)
+    else:
+        buf = io.StringIO()
+        f.write(buf)
+        text = buf.getvalue()
     ctx.op("write")
     if text != "\n".join(lines) + "\n":
         ctx.fail("record_structure", "written text is not the line list joined by newlines")
-    g = PDBFile.read(io.StringIO(text))
+    if g is None:
+        g = PDBFile.read(io.StringIO(text))
     ctx.op("read")
     fields = [k for k in ("atom_id", "b_factor", "occupancy", "charge")
               if spec[k] is not None or k == "atom_id" or (len(spec["atoms"]) + len(text)) % 3 == 0]
